@@ -202,9 +202,20 @@ func (n *idleBarrier) emitBarrier() error {
 		return err
 	}
 	if n.del {
-		return n.in.Collect(edge.NewDeleteGroupMessage(n.group))
+		return collectIntoInput(n.in, edge.NewDeleteGroupMessage(n.group))
 	}
 	return nil
+}
+
+// collectIntoInput feeds m into the node's own input edge. The timers run concurrently
+// with the parent node, which closes that edge when the task stops.
+func collectIntoInput(in edge.Edge, m edge.Message) error {
+	if c, ok := in.(interface {
+		CollectUnlessClosed(edge.Message) error
+	}); ok {
+		return c.CollectUnlessClosed(m)
+	}
+	return in.Collect(m)
 }
 
 func (n *idleBarrier) idleHandler() {
@@ -317,7 +328,7 @@ func (n *periodicBarrier) emitBarrier() error {
 	}
 	if n.del {
 		// Send DeleteGroupMessage into self
-		return n.in.Collect(edge.NewDeleteGroupMessage(n.group))
+		return collectIntoInput(n.in, edge.NewDeleteGroupMessage(n.group))
 	}
 	return nil
 }
